@@ -222,6 +222,8 @@ class World:
                 affine_transform=False,
                 xp=np,
             )
+        if self.cfg.get("dtype"):
+            kw["dtype"] = np.float32 if self.cfg["dtype"] == "obj32" else self.cfg["dtype"]
         self.sampler = S(
             log_likelihood=self.log_likelihood,
             log_prior=self.log_prior,
@@ -273,6 +275,7 @@ class World:
                 "n_beta": len(state["history"].beta),
                 "n_acc": len(state["history"].mcmc_acceptance),
                 "x": np.array(state["samples"].x, dtype=float),
+                "precision": precision_of(state["samples"]),
             }
         )
 
@@ -364,6 +367,16 @@ class _Tolerance:
 
 # ---------------------------------------------------------------------------
 # the float oracle
+
+
+def precision_of(pop):
+    """{field: dtype name} of a population object and the arrays it holds."""
+    out = {"dtype": np.dtype(pop.dtype).name if getattr(pop, "dtype", None) is not None else None}
+    for f in ("x", "log_likelihood", "log_prior", "log_q", "log_w", "weights"):
+        a = getattr(pop, f, None)
+        if a is not None:
+            out[f] = np.asarray(a).dtype.name
+    return out
 
 
 def oracle_run(w, props, bad, tag=""):
@@ -485,6 +498,16 @@ def oracle_run(w, props, bad, tag=""):
             bad.append(f"C10{tag}: {len(final.x)} final samples, {want} requested")
         if len(pops[0].x) != N:
             bad.append(f"C10{tag}: initial population has {len(pops[0].x)} particles")
+    if "C15" in props:
+        want = "float32" if cfg.get("dtype") in ("float32", "obj32") else "float64"
+        for t, p in enumerate(list(pops) + [final]):
+            which = f"population {t}" if t < len(pops) else "final samples"
+            pr = precision_of(p)
+            if any(v != want for v in pr.values()):
+                bad.append(f"C15{tag}: {which} is not in the requested precision {want}: {pr}")
+        for j, ck in enumerate(w.checkpoints):
+            if any(v != want for v in ck["precision"].values()):
+                bad.append(f"C15{tag}: checkpoint {j} holds a population that is not in the requested precision {want}: {ck['precision']}")
     if "C17" in props and smp.n_likelihood_evaluations != w.n_points:
         bad.append(f"C17{tag}: n_likelihood_evaluations={smp.n_likelihood_evaluations}, the likelihood was asked for {w.n_points} points")
     return info
